@@ -208,6 +208,33 @@ theorem M44_removeScaling_recompose {tmin tmax : α} {sqrt sin cos : α → α} 
   rw [M44_removeScaling, he]
   exact ⟨rfl, M44_sansScaling_recompose hs ht ha he⟩
 
+/-- UNCONDITIONAL form: for every affine `M` with non-singular linear part (and `1 < numeric_limits<T>::max ()`) the 3-D
+`extractSHRT` returns true and `scale * shear * rotation * translation = M`; for a singular linear part it returns false.
+(`C12.M44_extractAndRemoveScalingAndShear_succeeds_iff`: in exact arithmetic the overflow guards only detect a zero scale.) -/
+theorem M44_extractSHRT_total {tmin tmax : α} {sqrt sin cos : α → α} {atan2 : α → α → α}
+    (hs : SqrtSpec sqrt) (ht : EulerTrigSpec sin cos atan2) (h1 : 1 < tmax) {m : M44 α} (ha : Affine3 m) :
+    ((lin3 m).det ≠ 0 → ∃ s h rot t, Gen.M44.extractSHRT tmin tmax sqrt sin cos atan2 m = (true, s, h, rot, t) ∧
+      scaleH3 s * shearH3 h * rotH3 sin cos rot * transH3 t = m.toMat) ∧
+    ((lin3 m).det = 0 → (Gen.M44.extractSHRT tmin tmax sqrt sin cos atan2 m).1 = false) := by
+  constructor
+  · intro hd
+    obtain ⟨r, he⟩ := Option.isSome_iff_exists.mp ((M44_extractAndRemoveScalingAndShear_succeeds_iff (tmin := tmin) hs h1 m).mpr hd)
+    have e : Gen.M44.extractSHRT tmin tmax sqrt sin cos atan2 m =
+        (true, r.scl, r.shr, Gen.M44.extractEulerXYZ tmin tmax sqrt sin cos atan2 r.m, ⟨m.x30, m.x31, m.x32⟩) := by
+      rw [M44_extractSHRT, he]
+    exact ⟨_, _, _, _, e, M44_extractSHRT_recompose hs ht ha e⟩
+  · intro hd
+    rw [M44_extractSHRT, M44_extractAndRemoveScalingAndShear_degenerate hs hd]
+
+/-- … and likewise `sansScaling`: on every affine `M` with non-singular linear part, `scale * sansScaling (M) = M` for the scale
+`extractScaling` reports -/
+theorem M44_sansScaling_total {tmin tmax : α} {sqrt sin cos : α → α} {atan2 : α → α → α}
+    (hs : SqrtSpec sqrt) (ht : EulerTrigSpec sin cos atan2) (h1 : 1 < tmax) {m : M44 α} (ha : Affine3 m) (hd : (lin3 m).det ≠ 0) :
+    ∃ s, Gen.M44.extractScaling tmin tmax sqrt m = (true, s) ∧
+      scaleH3 s * (Gen.M44.sansScaling tmin tmax sqrt sin cos atan2 m).toMat = m.toMat := by
+  obtain ⟨r, he⟩ := Option.isSome_iff_exists.mp ((M44_extractAndRemoveScalingAndShear_succeeds_iff (tmin := tmin) hs h1 m).mpr hd)
+  exact ⟨r.scl, by rw [M44_extractScaling, he], (M44_sansScaling_recompose hs ht ha he).2⟩
+
 /-! ## 3. The real functions -/
 
 theorem sqrtSpec_real : SqrtSpec Real.sqrt := fun x hx => ⟨Real.sqrt_nonneg x, Real.mul_self_sqrt hx⟩
